@@ -10,10 +10,10 @@ from __future__ import annotations
 
 import random
 
-from problems import (PB, number, res_worker, res_cumul, cmp, start, end, const, add, o_con, o_expr,
+from problems import (PB, number, res_worker, res_cumul, cmp, start, end, const, add, sub, mul, o_con, o_expr,
                       b_sched, b_not)
 
-GROUPS = ("task", "resource", "optional", "logic", "buffer", "basic")
+GROUPS = ("task", "resource", "optional", "logic", "buffer", "basic", "indicator", "objective")
 
 
 class _Ctx:
@@ -49,7 +49,8 @@ def _tasks(rng, b, nt, want_optional):
 
 def _resources(rng, b, ts, c):
     """W1 always exists; every task gets none / W1 / W2 / select(W1,W2) / cumulative."""
-    c.w1, c.w2 = b.worker("W1", prod=rng.choice((1, 1, 2))), b.worker("W2")
+    costs = (None, None, 2, ("lin", 1, 1), ("poly", 1, 0, 1)) if getattr(c, "costs", False) else (None,)
+    c.w1, c.w2 = b.worker("W1", prod=rng.choice((1, 1, 2)), cost=rng.choice(costs)), b.worker("W2", cost=rng.choice(costs))
     c.cu = b.cumul("M", 2) if rng.random() < 0.3 else None
     c.sel = None
     c.sel_reqs = []
@@ -132,6 +133,12 @@ def _res_con(rng, b, c, H, **kw):
                      start=rng.choice((0, 0, 2)), offset=rng.choice((0, 0, 1)), end=rng.choice(([], [], [4])), **kw)
     if res["t"] == "cumul":
         return b.con("ResourceUnavailable", res=res, intervals=[[1, 2]], **kw)
+    if k in ("interrupted", "pinterrupted"):
+        # at most ONE interruption constraint per problem: two of them on one resource are the open finding F9,
+        # exercised on purpose by the C04 family (tag two-interruption-constraints) and kept out of the others
+        if getattr(c, "has_interruption", False):
+            return b.con("ResourceUnavailable", res=res, intervals=[[1, 2]], **kw)
+        c.has_interruption = True
     if k == "interrupted":
         lo = rng.choice((1, 2))
         return b.con("ResourceInterrupted", res=res, intervals=[[lo, lo + 1]], **kw)
@@ -216,10 +223,86 @@ def _buffer(rng, b, ts):
         (b.load if rng.random() < 0.5 else b.unload)(z, bf, 1)
 
 
+def _indicator(rng, b, ts, c):
+    """one random indicator; returns its index (or None when nothing applies)"""
+    due = [t for t in ts if b.p["tasks"][t - 1]["due"]]
+    mand = [t for t in ts if not b.p["tasks"][t - 1]["optional"]]
+    kinds = ["util", "ntasks", "cost", "flow1"]
+    if c.on_w1 + c.maybe_w1 >= 2:
+        kinds.append("idle")
+    if due:
+        kinds += ["tard", "early", "ntardy", "maxlate"]
+    if len(mand) >= 2:
+        kinds.append("expr")
+    if b.p["buffers"]:
+        kinds += ["maxbuf", "minbuf"]
+    if c.cu and any(r["type"] == "cumul" for r in b.p["reqs"]):
+        kinds += ["ntasks_cu", "cost_cu"]
+    k = rng.choice(kinds)
+    r1 = res_worker(c.w1)
+    if k == "util":
+        return b.ind("IndicatorResourceUtilization", res=r1)
+    if k == "ntasks":
+        return b.ind("IndicatorNumberTasksAssigned", res=r1)
+    if k == "ntasks_cu":
+        return b.ind("IndicatorNumberTasksAssigned", res=res_cumul(c.cu))
+    if k == "cost":
+        return b.ind("IndicatorResourceCost", ress=[r1] + ([res_worker(c.w2)] if rng.random() < 0.5 else []))
+    if k == "cost_cu":
+        return b.ind("IndicatorResourceCost", ress=[res_cumul(c.cu)])
+    if k == "idle":
+        return b.ind("IndicatorResourceIdle", res=r1)
+    if k in ("tard", "early", "ntardy", "maxlate"):
+        cls = {"tard": "IndicatorTardiness", "early": "IndicatorEarliness", "ntardy": "IndicatorNumberOfTardyTasks",
+               "maxlate": "IndicatorMaximumLateness"}[k]
+        return b.ind(cls, tasks=due)
+    if k == "expr":
+        a, d = rng.sample(mand, 2)
+        return b.ind("IndicatorFromMathExpression", name=f"E{len(b.p['inds'])}",
+                     expr=rng.choice((sub(start(d), end(a)), add(mul(2, start(a)), end(d)), end(a))))
+    if k in ("maxbuf", "minbuf"):
+        return b.ind("IndicatorMaxBufferLevel" if k == "maxbuf" else "IndicatorMinBufferLevel", buffer=1)
+    return None
+
+
+def _objective(rng, b, ts, c, H):
+    """one objective (with the indicator it is about); returns True when one was added"""
+    mand = [t for t in ts if not b.p["tasks"][t - 1]["optional"]]
+    k = rng.choice(("makespan", "flowtime", "priorities", "latest", "earliest", "greatest", "cost", "util", "user_min", "user_max",
+                    "flow1"))
+    if k == "makespan":
+        b.obj("ObjectiveMinimizeMakespan")
+    elif k in ("flowtime", "priorities", "latest", "earliest", "greatest"):
+        ocls, icls = {"flowtime": ("ObjectiveMinimizeFlowtime", "Flowtime"), "priorities": ("ObjectivePriorities", "TotalPriority"),
+                      "latest": ("ObjectiveTasksStartLatest", "MinimumStartTime"),
+                      "earliest": ("ObjectiveTasksStartEarliest", "WeightedStartTimes"),
+                      "greatest": ("ObjectiveMinimizeGreatestStartTime", "GreatestStartTime")}[k]
+        b.obj(ocls, ind=b.ind(icls, name=icls, tasks=list(ts)), kind="maximize" if k == "latest" else "minimize")
+    elif k == "cost":
+        b.obj("ObjectiveMinimizeResourceCost", ind=b.ind("IndicatorResourceCost", ress=[res_worker(c.w1), res_worker(c.w2)], by_objective=True),
+              ress=[res_worker(c.w1), res_worker(c.w2)])
+    elif k == "util":
+        b.obj("ObjectiveMaximizeResourceUtilization", ind=b.ind("IndicatorResourceUtilization", res=res_worker(c.w1), by_objective=True),
+              res=res_worker(c.w1), kind="maximize")
+    elif k == "flow1":
+        b.obj("ObjectiveMinimizeFlowtimeSingleResource",
+              ind=b.ind("FlowtimeSingleResource", name="FlowTimeSingleResource(W1:0:horizon)", res=res_worker(c.w1), lo=0, hi=H, whole=True))
+    else:
+        if len(mand) < 2:
+            b.obj("ObjectiveMinimizeMakespan")
+            return True
+        a, d = rng.sample(mand, 2)
+        i = b.ind("IndicatorFromMathExpression", name="U", expr=add(end(a), mul(2, start(d))), bounds=[0, 3 * H])
+        b.obj("ObjectiveMinimizeIndicator" if k == "user_min" else "ObjectiveMaximizeIndicator", ind=i,
+              kind="minimize" if k == "user_min" else "maximize")
+    return True
+
+
 def one(rng, focus):
     H = rng.choice((4, 4, 5))
     b = PB(H, tag="mixed-" + focus)
     c = _Ctx()
+    c.costs = focus in ("indicator", "objective")
     nt = rng.choice((2, 3, 3))
     ts, _ = _tasks(rng, b, nt, want_optional=focus == "optional")
     if focus == "optional" and not any(t["optional"] for t in b.p["tasks"]):
@@ -243,6 +326,11 @@ def one(rng, focus):
     add(focus)
     for _ in range(rng.choice((1, 2, 2))):
         add(rng.choice(("task", "task", "resource", "resource", "optional", "logic", "buffer")))
+    if focus == "indicator":
+        for _ in range(rng.choice((2, 3))):
+            _indicator(rng, b, ts, c)
+    if focus == "objective":
+        _objective(rng, b, ts, c, H)
     return b.done()
 
 
